@@ -218,7 +218,7 @@ def run(ctx, out, budget):
         out.exhaustive_scope = ("all multisets of <=3 spans over offsets 0..3 (incl. zero-width, duplicates) x 3 type "
                                 "assignments x all 10 query spans x {covered, covering}; exhaustive for that sub-space only")
     rng = ctx.rng(1)
-    evaluate(ctx, out, dynamic_sessions(ctx.rng(2), 150 if budget == "quick" else 2000), "dyn")
+    evaluate(ctx, out, dynamic_sessions(ctx.rng(2), 150 if budget == "quick" else 12000), "dyn")
     if budget == "quick":
         evaluate(ctx, out, random_sessions(rng, 120, 40, 30), "rnd")
     else:
